@@ -13,7 +13,7 @@ expressions that are zero.
 Not modelled (the passes return `unsupported`): vector expansion (`_expand_vectors`, property
 C18), the SX round trip `_expand_simplify_mx`, elimination of a *differentiated* state through
 `eliminable_variable_expression` (needs the symbolic time derivative), and the collapse into
-`A x + b` (`reduce_affine_expression`, whose algebra is `Lemmas` material: see `affineForm`).
+`A x + b` (`reduce_affine_expression`; covered by the direct oracle of the harness only).
 Variable metadata other than `value` (min/max/nominal/start/fixed) belongs to C13/C16.
 -/
 namespace PymocaVerif.Simplify
